@@ -31,6 +31,14 @@ class Raised(Exception):
         self.msg = msg
 
 
+class _Break(Exception):
+    pass
+
+
+class _Continue(Exception):
+    pass
+
+
 class _Return(Exception):
     def __init__(self, value):
         self.value = value
@@ -195,8 +203,19 @@ class Interp:
                 raise Unknown('for over %r' % (it,))
             for v in it:
                 self.assign(st.target, v, frame)
-                self.exec_block(st.body, frame)
+                try:
+                    self.exec_block(st.body, frame)
+                except _Break:
+                    break
+                except _Continue:
+                    continue
+            else:
+                self.exec_block(st.orelse, frame)
             return
+        if isinstance(st, ast.Break):
+            raise _Break()
+        if isinstance(st, ast.Continue):
+            raise _Continue()
         if isinstance(st, ast.Pass):
             return
         raise Unknown('statement %s' % type(st).__name__)
